@@ -300,6 +300,7 @@ func (db *DB) Write(batch *Batch, wo *opt.WriteOptions) error {
 		}
 		return nil
 	}
+	verifAt("x.write.ok")
 
 	merge := !wo.GetNoWriteMerge() && !db.s.o.GetNoWriteMerge()
 	sync := wo.GetSync() && !db.s.o.GetNoSync()
@@ -346,6 +347,7 @@ func (db *DB) putRec(kt keyType, key, value []byte, wo *opt.WriteOptions) error 
 	if err := db.ok(); err != nil {
 		return err
 	}
+	verifAt("x.write.ok")
 
 	merge := !wo.GetNoWriteMerge() && !db.s.o.GetNoWriteMerge()
 	sync := wo.GetSync() && !db.s.o.GetNoSync()
